@@ -30,7 +30,7 @@ LEVEL_TEXT = ("Seeded exploration: every negotiable (suite, version) cell "
 LEVEL_NOTE = ("Trusted: simulator, model/suites.py (IANA-name parser used to "
               "derive AEAD tag lengths for the wire-side limit check). 3DES "
               "payloads are capped (16 kB/s in pure Python).")
-BUDGET = {"quick": 60, "thorough": 1200}
+BUDGET = {"quick": 300, "thorough": 1200}
 CHUNK = 4
 PROBES = ["split_1n1", "empty_write", "multi_record_write", "limit_hit",
           "padding_seen", "read_max_lt_buffered", "rsl_negotiated",
